@@ -20,6 +20,8 @@ structure SchemaEntry where
   entity : Str
   field : Str
   isScalar : Bool
+  /-- object-typed field whose target entity is concrete -/
+  targetConcrete : Bool
   ty : TypeAnn
   /-- `get_inner_text_for_selectable` (scalars only) -/
   innerText : Str
